@@ -57,7 +57,9 @@ _covered = []
 _PER = {'quick': 3, 'thorough': 6}
 # in addition: every algorithm selection of the explicit inclusion checker (hand-managed antichains, caches with invalidation
 # callbacks, emulated call stack) on a universe with two leaf symbols
-_MORE = {'C01:incl': [AB(1, 2, [0, 0, 1], SEL=s) for s in range(8)],
+_MORE = {'C01:incl': [AB(1, 2, [0, 0, 1], SEL=s) for s in range(8)] +
+                     # address-keyed memo tables and their invalidation: the same code under the heap model that reuses released addresses
+                     [AB(1, 2, [0, 2], SEL=s, _reuse=1) for s in (0, 2, 4, 6)] + [AB(2, 2, [0, 1], SEL=s, _reuse=1) for s in (1, 3, 5, 7)],
          # the simulation engine with more than 64 blocks (word boundary of its per-block bit masks)
          'C16:lts': [{'NQ': 2, 'NL': 1, 'MODE': 0, 'FILL': 67, 'FILLCHAIN': None}]}
 for _f in sorted(glob.glob(os.path.join(_here, '*.py'))):
